@@ -1306,6 +1306,8 @@ fn generate_decl(
     file: &ast::File,
     decl: &ast::Decl,
 ) -> proc_macro2::TokenStream {
+    #[cfg(feature = "verif-sim")]
+    crate::verif_sim::yield_point("rust:decl");
     match &decl.desc {
         ast::DeclDesc::Packet { id, .. } | ast::DeclDesc::Struct { id, .. } => {
             match scope.get_parent(decl) {
